@@ -2,10 +2,10 @@ package adapt
 
 import (
 	"context"
-	"sync/atomic"
 	"github.com/aws/aws-sdk-go/aws"
 	v1ddb "github.com/aws/aws-sdk-go/service/dynamodb"
 	v1client "github.com/truora/minidyn/aws-v1/client"
+	"sync/atomic"
 
 	"verifharness/val"
 )
@@ -20,7 +20,6 @@ type V1 struct {
 func (c *V1) viaContext() bool {
 	return atomic.AddInt64(&c.calls, 1)%2 == 0
 }
-
 
 // NewV1 returns a fresh SDK v1 client.
 func NewV1() *V1 { return &V1{C: v1client.NewClient()} }
@@ -116,13 +115,13 @@ func v1CreateInput(spec *TableSpec) *v1ddb.CreateTableInput {
 		if ix.Local {
 			in.LocalSecondaryIndexes = append(in.LocalSecondaryIndexes, &v1ddb.LocalSecondaryIndex{
 				IndexName: aws.String(ix.Name), KeySchema: v1KeySchema(ix.Hash, ix.Range),
-				Projection: &v1ddb.Projection{ProjectionType: aws.String("ALL")},
+				Projection: v1Projection(ix),
 			})
 			continue
 		}
 		g := &v1ddb.GlobalSecondaryIndex{
 			IndexName: aws.String(ix.Name), KeySchema: v1KeySchema(ix.Hash, ix.Range),
-			Projection: &v1ddb.Projection{ProjectionType: aws.String("ALL")},
+			Projection: v1Projection(ix),
 		}
 		if spec.Throughput {
 			g.ProvisionedThroughput = v1Throughput()
@@ -130,6 +129,24 @@ func v1CreateInput(spec *TableSpec) *v1ddb.CreateTableInput {
 		in.GlobalSecondaryIndexes = append(in.GlobalSecondaryIndexes, g)
 	}
 	return in
+}
+
+func v1Projection(ix IndexSpec) *v1ddb.Projection {
+	p := &v1ddb.Projection{ProjectionType: aws.String(ix.ProjType())}
+	for _, n := range ix.NonKey {
+		p.NonKeyAttributes = append(p.NonKeyAttributes, aws.String(n))
+	}
+	return p
+}
+
+func v1ProjDesc(id *IndexDesc, p *v1ddb.Projection) {
+	if p == nil {
+		return
+	}
+	id.Proj = aws.StringValue(p.ProjectionType)
+	for _, n := range p.NonKeyAttributes {
+		id.NonKey = append(id.NonKey, aws.StringValue(n))
+	}
 }
 
 func v1Desc(d *v1ddb.TableDescription) *Desc {
@@ -146,6 +163,7 @@ func v1Desc(d *v1ddb.TableDescription) *Desc {
 	}
 	for _, g := range d.GlobalSecondaryIndexes {
 		id := IndexDesc{Name: aws.StringValue(g.IndexName), Count: aws.Int64Value(g.ItemCount), HasCnt: g.ItemCount != nil}
+		v1ProjDesc(&id, g.Projection)
 		for _, k := range g.KeySchema {
 			if aws.StringValue(k.KeyType) == "HASH" {
 				id.Hash = aws.StringValue(k.AttributeName)
@@ -157,6 +175,7 @@ func v1Desc(d *v1ddb.TableDescription) *Desc {
 	}
 	for _, g := range d.LocalSecondaryIndexes {
 		id := IndexDesc{Name: aws.StringValue(g.IndexName), Local: true, Count: aws.Int64Value(g.ItemCount), HasCnt: g.ItemCount != nil}
+		v1ProjDesc(&id, g.Projection)
 		for _, k := range g.KeySchema {
 			if aws.StringValue(k.KeyType) == "HASH" {
 				id.Hash = aws.StringValue(k.AttributeName)
@@ -213,7 +232,7 @@ func (c *V1) Do(op Op) (out Outcome) {
 		}
 		return o
 	case OpUpdate:
-		in := &v1ddb.UpdateItemInput{TableName: aws.String(op.Table), Key: ItemToV1(op.Key), UpdateExpression: aws.String(op.Update),
+		in := &v1ddb.UpdateItemInput{TableName: aws.String(op.Table), Key: ItemToV1(op.Key), UpdateExpression: updExpr(op),
 			ConditionExpression: strp(op.Cond), ExpressionAttributeNames: v1Names(op.Names), ExpressionAttributeValues: ItemToV1(op.Values)}
 		res, err := c.callUpdateItem(in)
 		o := fin(err)
@@ -268,6 +287,7 @@ func (c *V1) Do(op Op) (out Outcome) {
 				o.Items = v1Items(res.Items)
 				o.Count = aws.Int64Value(res.Count)
 				o.LastKey = NormalizeEmpty(ItemFromV1(res.LastEvaluatedKey))
+				o.LastKeyEmpty = res.LastEvaluatedKey != nil && len(res.LastEvaluatedKey) == 0
 			}
 		}
 		return o
@@ -292,6 +312,7 @@ func (c *V1) Do(op Op) (out Outcome) {
 				o.Items = v1Items(res.Items)
 				o.Count = aws.Int64Value(res.Count)
 				o.LastKey = NormalizeEmpty(ItemFromV1(res.LastEvaluatedKey))
+				o.LastKeyEmpty = res.LastEvaluatedKey != nil && len(res.LastEvaluatedKey) == 0
 			}
 		}
 		return o
@@ -369,7 +390,7 @@ func (c *V1) Do(op Op) (out Outcome) {
 				}
 				u.Create = &v1ddb.CreateGlobalSecondaryIndexAction{IndexName: aws.String(ch.Create.Name),
 					KeySchema:  v1KeySchema(ch.Create.Hash, ch.Create.Range),
-					Projection: &v1ddb.Projection{ProjectionType: aws.String("ALL")}, ProvisionedThroughput: v1Throughput()}
+					Projection: v1Projection(*ch.Create), ProvisionedThroughput: v1Throughput()}
 			}
 			if ch.Delete != "" {
 				u.Delete = &v1ddb.DeleteGlobalSecondaryIndexAction{IndexName: aws.String(ch.Delete)}
